@@ -17,22 +17,22 @@ ALG = {'AES': 1, 'DES': 2, 'DES3': 3, 'Blowfish': 4, 'CAST': 5, 'ARC2': 6, 'ARC4
 SIG = {
     # ---- one-shot mode functions over the abstract block cipher `alg` keyed with `key` (length preserving) -----------
     # data is the WHOLE message; a call on a later segment yields the corresponding slice (position-indexed contracts)
-    'ecb_enc': {'sort': 'bytes', 'uf': True, 'facts': ['len(result) == len(data)', 'spec.modes.ecb_dec(alg, key, result) == data']},
-    'ecb_dec': {'sort': 'bytes', 'uf': True, 'facts': ['len(result) == len(data)', 'spec.modes.ecb_enc(alg, key, result) == data']},
-    'cbc_enc': {'sort': 'bytes', 'uf': True, 'facts': ['len(result) == len(data)', 'spec.modes.cbc_dec(alg, key, iv, result) == data']},
-    'cbc_dec': {'sort': 'bytes', 'uf': True, 'facts': ['len(result) == len(data)', 'spec.modes.cbc_enc(alg, key, iv, result) == data']},
-    'cfb_enc': {'sort': 'bytes', 'uf': True, 'facts': ['len(result) == len(data)', 'spec.modes.cfb_dec(alg, key, iv, seg, result) == data']},
-    'cfb_dec': {'sort': 'bytes', 'uf': True, 'facts': ['len(result) == len(data)', 'spec.modes.cfb_enc(alg, key, iv, seg, result) == data']},
+    'ecb_enc': {'sort': 'bytes', 'uf': True, 'facts': ['len(result) == len(data)']},
+    'ecb_dec': {'sort': 'bytes', 'uf': True, 'facts': ['len(result) == len(data)']},
+    'cbc_enc': {'sort': 'bytes', 'uf': True, 'facts': ['len(result) == len(data)']},
+    'cbc_dec': {'sort': 'bytes', 'uf': True, 'facts': ['len(result) == len(data)']},
+    'cfb_enc': {'sort': 'bytes', 'uf': True, 'facts': ['len(result) == len(data)']},
+    'cfb_dec': {'sort': 'bytes', 'uf': True, 'facts': ['len(result) == len(data)']},
     # OFB and CTR are xor with a key stream that does not depend on the data: the same function encrypts and decrypts and is
     # an involution
-    'ofb': {'sort': 'bytes', 'uf': True, 'facts': ['len(result) == len(data)', 'spec.modes.ofb(alg, key, iv, result) == data']},
-    'ctr': {'sort': 'bytes', 'uf': True, 'facts': ['len(result) == len(data)',
-                                                    'spec.modes.ctr(alg, key, icb, prefix_len, counter_len, little, result) == data']},
+    'ofb': {'sort': 'bytes', 'uf': True, 'facts': ['len(result) == len(data)']},
+    'ctr': {'sort': 'bytes', 'uf': True, 'facts': ['len(result) == len(data)']},
     # stream ciphers: data xor key stream of (alg, key, nonce) starting at byte position `pos`
-    'stream': {'sort': 'bytes', 'uf': True, 'facts': ['len(result) == len(data)', 'spec.modes.stream(alg, key, nonce, pos, result) == data']},
+    'stream': {'sort': 'bytes', 'uf': True, 'facts': ['len(result) == len(data)']},
     'hchacha20': {'sort': 'bytes', 'uf': True, 'facts': ['len(result) == 32']},
     'key_len_ok': 'bool', 'ctr_block': 'bytes', 'ctr_limit': 'int[nat]', 'odd_parity': 'int[nat]', 'des_parity': 'bytes',
-    'tdes_key_ok': 'bool', 'chacha_blocks': 'int[nat]', 'cfb_segment_ok': 'bool',
+    'tdes_key_ok': 'bool', 'chacha_blocks': 'int[nat]', 'cfb_segment_ok': 'bool', 'le_digits': 'bytes', 'be_digits': 'bytes',
+    'ctr_block_digits': 'bytes',
 }
 
 
@@ -111,6 +111,33 @@ def ctr_block(prefix, value, counter_len, little, suffix):
     if little:
         return prefix + i2le(value, counter_len) + suffix
     return prefix + i2osp(value, counter_len) + suffix
+
+
+def le_digits(value, n):
+    """the n base-256 digits of value (0 <= value < 256**n), least significant first: positional notation, digit by digit"""
+    if n == 0:
+        return b''
+    return i2osp(value % 256, 1) + le_digits(value // 256, n - 1)
+
+
+def be_digits(value, n):
+    """the same digits, most significant first"""
+    if n == 0:
+        return b''
+    return be_digits(value // 256, n - 1) + i2osp(value % 256, 1)
+
+
+def ctr_block_digits(prefix, value, counter_len, little, suffix):
+    """ctr_block with the counter field written digit by digit (equal to ctr_block: lemma_digits, proved per counter_len)"""
+    if little:
+        return prefix + le_digits(value, counter_len) + suffix
+    return prefix + be_digits(value, counter_len) + suffix
+
+
+def lemma_digits(prefix, value, n, little, suffix):
+    """ghost function: its contract (contracts/ctr.py, units ctr.digits.*) states, for 0 <= value < 256**n,
+    ctr_block_digits(prefix, value, n, little, suffix) == ctr_block(prefix, value, n, little, suffix), i.e. digits == I2OSP / I2LE"""
+    return ctr_block_digits(prefix, value, n, little, suffix)
 
 
 def ctr_limit(block_len, counter_len):
